@@ -654,3 +654,59 @@ func init() {
 		}
 	})
 }
+
+// ------------------------------------------------------------------ C19.R11, R12 (round-4 seeds)
+func init() {
+	// R11: `type.attribute EXISTS` asks for that very composite key; only a bare event type (no dot) is
+	// looked for as a prefix of the keys. Falling back to the prefix scan for a dotted key delivers events
+	// that merely have a longer key with the same beginning (transfer.amount_burned for transfer.amount) —
+	// and makes the subscription disagree with the indexers' search for the same query.
+	register("C19", "R11", "K1", "EXISTS on a dotted key is an exact key lookup: the prefix scan over the event keys is used only for a bare event type", 2, func(c *Ctx) {
+		w := c.W
+		f := c.fn("libs/pubsub/query", "Query.Matches")
+		if f == nil {
+			return
+		}
+		fk := funcKey(f)
+		n := 0
+		for _, b := range f.Blocks {
+			for _, in := range b.Instrs {
+				call, ok := in.(*ssa.Call)
+				if !ok {
+					continue
+				}
+				d, okd := describeCallee(call)
+				if !okd || d.Pkg != "strings" || !(d.Name == "Index" || d.Name == "HasPrefix") {
+					continue
+				}
+				if !strings.Contains(w.expr(callArgs(call)[0]), "range(events)") {
+					continue
+				}
+				n++
+				c.guards(f, call, fk+" :: prefix scan over the event keys", 0, guardRe("the attribute has no dot (it is an event type)", `^false\(strings\.Contains\(.*, "\."\)\)$`))
+			}
+		}
+		c.Check(n == 1, fk+" :: prefix scan found", w.pos(f.Pos()), "1", fmt.Sprintf("%d", n))
+	})
+
+	// R12: the handshake may replay the last block (the node stopped after saving it and before applying
+	// it); the replay publishes that block's events, and only a subscribed indexer service indexes them.
+	// The event bus and the indexer service are therefore started before the handshake.
+	register("C19", "R12", "K2", "node start-up: event bus and indexer service are started before the handshake that may replay (and publish) the last block", 2, func(c *Ctx) {
+		w := c.W
+		f := c.fn("node", "NewNode")
+		if f == nil {
+			return
+		}
+		fk := funcKey(f)
+		n := 0
+		for _, hs := range w.callsTo(f, "node#doHandshake") {
+			n++
+			for _, pre := range []string{"node#createAndStartEventBus", "node#createAndStartIndexerService"} {
+				ok, _ := mustPrecede(f, hs, w.callPred(pre))
+				c.Check(ok, fk+" :: "+pre[strings.Index(pre, "#")+1:]+" before the handshake", w.ipos(hs), "started first", "the handshake can run before "+pre[strings.Index(pre, "#")+1:]+": the events of a block replayed at start-up are published to nobody and the block is never indexed")
+			}
+		}
+		c.Check(n == 1, fk+" :: handshake found", w.pos(f.Pos()), "1", fmt.Sprintf("%d", n))
+	})
+}
